@@ -15,7 +15,7 @@ def exact_arrays(st):
     return mu, V
 
 
-def compare_state(st, proj, cfg):
+def compare_state(st, proj, cfg, coarse=False):
     """Compare the spec's exact state with a projection.  Returns (verdict, worst, info) with verdict in
     {"ok", "bad", "inconclusive"}."""
     mu, V = exact_arrays(st)
@@ -25,6 +25,12 @@ def compare_state(st, proj, cfg):
     dmu = float(np.max(np.abs(proj["mu"] - mu))) if n else 0.0
     dV = float(np.max(np.abs(proj["V"] - V))) if n else 0.0
     scale = 1.0 + max(float(np.max(np.abs(mu))) if n else 0, float(np.max(np.abs(V))) if n else 0)
+    if coarse:
+        # identity-level comparison (after measurements: finite homodyne squeezing eps, renormalised Fock trace)
+        tol = (1e-5 if cfg in ("gaussian", "bosonic") else 5e-2) * scale
+        if dmu <= tol and dV <= tol:
+            return "ok", max(dmu, dV), ""
+        return "bad", max(dmu, dV), "dmu=%.3g dV=%.3g tol=%.3g" % (dmu, dV, tol)
     if cfg in ("gaussian", "bosonic"):
         tol = 1e-9 * scale
         if dmu <= tol and dV <= tol:
